@@ -14,12 +14,17 @@ try:
 except Exception: pass
 PY
 )
+  # caught only after a later strengthening (or documented as not caught: "none"): see DESIGN.md section 5
+  [ -z "$id" ] && [ -f "$d/caught_by" ] && id=$(cat "$d/caught_by")
+  [ "$id" = none ] && { echo "$n: documented as not caught (DESIGN.md section 5)"; continue; }
   [ -z "$id" ] && { echo "$n: (no catching check recorded)"; continue; }
   W=$(mktemp -d /tmp/regress.XXXXXX)
   git -C /repo worktree add --detach "$W" HEAD >/dev/null 2>&1
   if git -C "$W" apply "$ROOT/$d/patch.diff" 2>/dev/null; then
-    out=$(VERIF_OUT="$ROOT/.build/regress-out" VERIF_REPO="$W" ./check $id quick 2>&1); rc=$?
-    echo "$n: $id rc=$rc $(echo "$out" | grep -c '^VIOLATION') violation lines"
+    for one in $id; do
+      out=$(VERIF_OUT="$ROOT/.build/regress-out" VERIF_REPO="$W" ./check $one quick 2>&1); rc=$?
+      echo "$n: $one rc=$rc $(echo "$out" | grep -ac '^VIOLATION') violation lines"
+    done
   else echo "$n: patch does not apply"; fi
   git -C /repo worktree remove --force "$W" >/dev/null 2>&1; rm -rf "$W"
 done
